@@ -424,7 +424,7 @@ M.contract(P_TS + ':TokenStream.is_at_end', params=dict(self=TS), returns=Bool, 
            raises_only=())
 M.contract(P_TS + ':TokenStream.remaining_part_of_current_line', params=dict(self=TS), returns=Str,
            ensures={'up-to-the-line-break': lambda self, result:
-           is_current_line_rest(self._source, self._start_pos, result)},
+           result == current_line_rest(self._source, self._start_pos)},
            raises_only=())
 M.contract(P_TS + ':TokenStream.look_ahead_state', params=dict(self=TS), returns=EnumOf(LookAheadState),
            inline=True,
@@ -468,10 +468,7 @@ M.contract(P_TS + ':TokenStream._consume_remaining_part_of_current_line',
            returns=Str,
            ensures={
                'source-unchanged': lambda self, old: self._source == old[1],
-               'returns-the-rest-of-the-line': lambda old, result: is_current_line_rest(old[1], old[0], result),
-               # (a consequence of the clause above, stated for the callers: at a line break the rest is empty)
-               'empty-at-a-line-break': lambda old, result:
-               old[0] == len(old[1]) or old[1][old[0]] != '\n' or result == '',
+               'returns-the-rest-of-the-line': lambda old, result: result == current_line_rest(old[1], old[0]),
                'advances-to-the-line-break-or-past-it': lambda self, do_forward_to_next_line, old, result:
                self._start_pos == (old[0] + len(result) if old[0] + len(result) == len(old[1])
                                    else old[0] + len(result) + (1 if do_forward_to_next_line else 0)),
@@ -506,8 +503,8 @@ def join_lemma(lines):
 
 def marker_line_at(source, start, p, marker):
     """position p (>= start) is the beginning of a line (start itself counts) whose text is exactly marker"""
-    return (start <= p and (p == start or source[p - 1] == '\n')
-            and is_current_line_rest(source, p, marker))
+    return (start <= p and p <= len(source) and (p == start or source[p - 1] == '\n')
+            and current_line_rest(source, p) == marker)
 
 
 def split_events(trace):
@@ -550,6 +547,7 @@ M.contract(P_RS + ':HereDocParser._parse_contents', params=dict(marker=Str, toke
            requires=lambda marker: '\n' not in marker,
            old=lambda token_parser: (_hd_pos(token_parser), _hd_source(token_parser)),
            modifies=_TS_FRAME,
+           returns=Any_,
            raises={parse_rich_string.HereDocumentContentsParsingException: {
                # unterminated: everything was read
                'ensures': lambda token_parser, old: _hd_pos(token_parser) == len(old[1])}},
@@ -557,9 +555,15 @@ M.contract(P_RS + ':HereDocParser._parse_contents', params=dict(marker=Str, toke
                'source-unchanged': lambda token_parser, old: _hd_source(token_parser) == old[1],
                'stops-at-the-end-of-a-marker-line': lambda marker, token_parser, old:
                marker_line_at(old[1], old[0], _hd_pos(token_parser) - len(marker), marker),
-               'contents-is-the-text-before-the-marker-line': lambda marker, token_parser, old, trace:
-               len(split_events(trace)) == 1
-               and split_events(trace)[0][1]['s'] == old[1][old[0]:_hd_pos(token_parser) - len(marker)],
+               # proved of the body: exactly one string is split into fragments, namely ...
+               'contents-is-the-text-before-the-marker-line': (
+                   lambda marker, token_parser, old, trace:
+                   len(split_events(trace)) == 1
+                   and split_events(trace)[0][1]['s'] == old[1][old[0]:_hd_pos(token_parser) - len(marker)],
+                   'internal'),
+               # ... which is what callers see as the ghost event of this call
+               'split-event': (lambda marker, token_parser, old, trace: trace.append(
+                   ('split', {'s': old[1][old[0]:_hd_pos(token_parser) - len(marker)]})), 'effect'),
            },
            raises_only=())
 M.loop(P_RS + ':HereDocParser._parse_contents', 0,
@@ -572,3 +576,119 @@ M.loop(P_RS + ':HereDocParser._parse_contents', 0,
        and join_lemma(here_doc)
        and (cat_nl(here_doc) == '' or cat_nl(here_doc).endswith('\n')),
        modifies=dict(_TS_FRAME, here_doc=LINES, line='local'))
+
+
+# ------------------------------------------------------------------------------ here-document header
+
+import re  # noqa: E402
+from exactly_lib.definitions.primitives import string as _string_defs  # noqa: E402
+from exactly_lib.impls.types.string_.parse_rich_string import HereDocParser  # noqa: E402
+
+P_TP = 'exactly_lib.section_document.element_parsers.token_stream_parser'
+
+_HERE_DOC_TOKEN_PATTERN = '(<<)([0-9a-zA-Z_-]+)'
+
+
+class _MarkerMatch:
+    """result of re.fullmatch(HERE_DOCUMENT_TOKEN_RE, s): only group(1), group(2) are modelled"""
+
+    def __init__(self, s):
+        self.s = s
+
+    def group(self, n):
+        if n == 1:
+            return self.s[:2]
+        if n == 2:
+            return self.s[2:]
+        raise IndexError('no such group')
+
+
+def _fullmatch_model(interp, args, kwargs):
+    """re.fullmatch(HERE_DOCUMENT_TOKEN_RE, s): the pattern text is read from the real module; it must be the
+    one this model was written for: '<<' followed by one or more of [0-9a-zA-Z_-]"""
+    import z3
+    from pyvc.path import Unsupported
+    from pyvc.values import SStr, wrap
+    pattern, s = args[0], args[1]
+    if pattern is not _string_defs.HERE_DOCUMENT_TOKEN_RE or pattern.pattern != _HERE_DOC_TOKEN_PATTERN \
+            or pattern.flags != re.compile('x').flags:
+        raise Unsupported('re.fullmatch: only HERE_DOCUMENT_TOKEN_RE == %r is modelled' % _HERE_DOC_TOKEN_PATTERN)
+    if isinstance(s, str):
+        return None if re.fullmatch(pattern, s) is None else _MarkerMatch(s)
+    cls = z3.Union(z3.Range('0', '9'), z3.Range('a', 'z'), z3.Range('A', 'Z'), z3.Re('_'), z3.Re('-'))
+    lang = z3.Concat(z3.Re('<<'), z3.Plus(cls))
+    if not interp.st.fork(wrap(z3.InRe(s.t, lang))):
+        return None
+    # consequences the string solvers do not have to rediscover
+    interp.st.assume(z3.And(z3.PrefixOf(z3.StringVal('<<'), s.t), z3.Length(s.t) >= 3,
+                            z3.Not(z3.Contains(s.t, z3.StringVal('\n')))))
+    return _MarkerMatch(s)
+
+
+M.model(re.fullmatch, _fullmatch_model)
+M.trust("re.fullmatch(HERE_DOCUMENT_TOKEN_RE, s) for the pattern '(<<)([0-9a-zA-Z_-]+)' (read from the real module): "
+        "matches exactly the language '<<'[0-9a-zA-Z_-]+ , group(2) == s[2:] (cross-checked natively, check "
+        "'here-doc-token-regex')")
+
+
+@M.check('here-doc-token-regex')
+def _check_here_doc_regex(ctx):
+    """the model of re.fullmatch above against CPython's re on all strings of length <= 5 over a small alphabet"""
+    import itertools
+    pat = _string_defs.HERE_DOCUMENT_TOKEN_RE
+    ok = pat.pattern == _HERE_DOC_TOKEN_PATTERN
+    alphabet = '<a9_-Z \n@é'
+    allowed = set('0123456789abcdefghijklmnopqrstuvwxyzABCDEFGHIJKLMNOPQRSTUVWXYZ_-')
+    bad = []
+    for n in range(0, 6):
+        for tup in itertools.product(alphabet, repeat=n):
+            s = ''.join(tup)
+            expected = s.startswith('<<') and len(s) >= 3 and all(c in allowed for c in s[2:])
+            m = re.fullmatch(pat, s)
+            if (m is not None) != expected or (m is not None and (m.group(2) != s[2:] or m.group(1) != '<<')):
+                bad.append(s)
+    ctx.obligation('re.fullmatch(HERE_DOCUMENT_TOKEN_RE, .) is the modelled language, group(2) == s[2:]',
+                   ok and not bad, backend='enumeration', detail={'pattern': pat.pattern, 'mismatches': bad[:5]})
+
+
+HDP = Inst(HereDocParser, _here_document_is_mandatory=Bool, _consume_last_line_if_is_at_eol_after_parse=Bool,
+           _consume_last_line_if_is_at_eof_after_parse=Bool)
+
+
+def valid_marker(m):
+    return m != '' and all_chars(m, marker_char)
+
+
+def marker_char(c):
+    return c in '0123456789abcdefghijklmnopqrstuvwxyzABCDEFGHIJKLMNOPQRSTUVWXYZ_-'
+
+
+M.contract(P_TP + ':TokenParser.report_superfluous_arguments_if_not_at_eol', params=dict(self=TP),
+           old=lambda self: (self._token_stream._start_pos, self._token_stream._source),
+           modifies={'self._token_stream._start_pos': Nat, 'self._token_stream._head_token': Opt(TOKEN),
+                     'self._token_stream._head_syntax_error_description': Opt(Str),
+                     'self._token_stream._lexer': Any_, 'self._token_stream._source_io.pos': Nat},
+           raises={SingleInstructionInvalidArgumentException: {
+               'when': lambda old: current_line_rest(old[1], old[0]).strip() != ''}},
+           ensures={'nothing-consumed': lambda self, old:
+           self._token_stream._start_pos == old[0] and self._token_stream._source == old[1]},
+           raises_only=())
+
+M.contract(P_RS + ':HereDocParser._parse_from_start_str',
+           params=dict(self=HDP, here_doc_start=Str, token_parser=TP),
+           old=lambda token_parser: (_hd_pos(token_parser), _hd_source(token_parser)),
+           modifies=_TS_FRAME,
+           raises={SingleInstructionInvalidArgumentException: {}},
+           returns=Any_,
+           ensures={
+               'marker-syntax': lambda here_doc_start: here_doc_start.startswith('<<') and len(here_doc_start) >= 3,
+               'rest-of-the-header-line-is-blank': lambda old: current_line_rest(old[1], old[0]).strip() == '',
+               'contents-start-on-the-next-line-and-end-before-the-marker-line':
+                   lambda here_doc_start, token_parser, old, trace:
+                   len(split_events(trace)) == 1 and
+                   split_events(trace)[0][1]['s'] == old[1][old[0] + len(current_line_rest(old[1], old[0])) + 1:
+                                                            _hd_pos(token_parser) - len(here_doc_start[2:])],
+               'stops-at-the-end-of-the-marker-line': lambda here_doc_start, token_parser, old:
+               current_line_rest(old[1], _hd_pos(token_parser) - len(here_doc_start[2:])) == here_doc_start[2:],
+           },
+           raises_only=())
